@@ -734,3 +734,154 @@ def crash_cases(prog, workdir, order="fifo", seed=0, ext=(), horizon_ms=60000, i
                           x["r"] == "ret" and x["ty"] not in ("None", "Stop", "Junk") for x in last["res"]),
                       "run": 1, "seq": k, "t": 0})
     return cases
+
+
+def double_crash_cases(prog, workdir, k1s, k2s, order="fifo", seed=0, horizon_ms=60000, idle_timeout=1000.0):
+    """Two process stops in a row: the process stops after its k1-th persisted tick; the restarted process (same
+    database) resumes the run and stops after ITS k2-th persisted tick; a third process restarts.  Same record shape as
+    crash_cases (k = 1000 * k1 + k2)."""
+    cases = []
+    db = os.path.join(str(workdir), "ref2_%s_%d.db" % (order, seed))
+    s = ServerSystem(prog, db_path=db, idle_timeout=idle_timeout)
+    try:
+        s.pick = _picker(order, seed)
+        s.launch()
+        s.start_handler("h1")
+        s.run_to_end(horizon_ms)
+        ref = _final(s, "h1")
+    finally:
+        s.close()
+    for k1 in k1s:
+        for k2 in k2s:
+            db = os.path.join(str(workdir), "crash2_%s_%d_%d_%d.db" % (order, seed, k1, k2))
+            s = ServerSystem(prog, db_path=db, idle_timeout=idle_timeout, crash_after_tick=k1)
+            try:
+                s.pick = _picker(order, seed)
+                s.launch()
+                s.start_handler("h1")
+                s.run_to_end(horizon_ms)
+                hs = dict(s.handlers)
+                crashed1 = s.crashed
+            finally:
+                s.close()
+            if not crashed1:
+                continue
+            s2 = ServerSystem(prog, db_path=db, idle_timeout=idle_timeout, run_no_base=1, crash_after_tick=k2)
+            try:
+                s2.pick = _picker(order, seed)
+                s2.handlers = hs
+                s2.launch()
+                s2.run_to_end(horizon_ms)
+                if not s2.crashed:
+                    row2 = s2.handler_row("h1")
+                    if row2["status"] == "running" and row2["idle"]:
+                        # a handler stored as idle is reloaded on demand, not at start-up
+                        s2.send("h1", "D", "wake", 0)
+                        s2.run_to_end(horizon_ms)
+                crashed2 = s2.crashed
+                last = ([r["tick"] for r in s2.trace if r["e"] == "tick"] or [{"k": "none"}])[-1]
+                pending_retry = any(tk.__class__.__name__ == "TickAddEvent" for r_ in en._RUNNERS.values()
+                                    for (_a, _s, tk) in r_.scheduled_wakeups)
+                buffered_retry = any(tk.__class__.__name__ == "TickAddEvent" and (getattr(tk, "attempts", None) or 0) > 0
+                                     for r_ in en._RUNNERS.values() for tk in r_.tick_buffer)
+                q = s2.basic._queues.get(hs.get("h1"))
+                mailbox = q.receive_queue.qsize() if q is not None else 0
+            finally:
+                s2.close()
+            if not crashed2:
+                continue
+            s3 = ServerSystem(prog, db_path=db, idle_timeout=idle_timeout, run_no_base=2)
+            try:
+                s3.pick = _picker(order, seed)
+                s3.handlers = hs
+                s3.launch()
+                s3.run_to_end(horizon_ms)
+                row = s3.handler_row("h1")
+                idle_marked = row["status"] == "running" and row["idle"]
+                if idle_marked:
+                    s3.send("h1", "D", "wake", 0)
+                    s3.run_to_end(horizon_ms)
+                res = _final(s3, "h1")
+                res["idle_marked_at_restart"] = bool(idle_marked)
+                reran = any(r["e"] == "step_start" for r in s3.trace)
+            finally:
+                s3.close()
+            ends = last["k"] in ("cancel", "timeout") or (
+                last["k"] == "result" and any(x["r"] == "ret" and x["ty"] == "Stop" for x in last.get("res", [])))
+            cases.append({"e": "case", "k": 1000 * k1 + k2, "ref": ref, "res": res, "reran": bool(reran), "last_tick": last["k"],
+                          "prefix_ends_run": bool(ends), "pending_retry": bool(pending_retry), "buffered_retry": bool(buffered_retry),
+                          "mailbox": int(mailbox),
+                          "last_has_output": last["k"] == "result" and any(
+                              x["r"] == "ret" and x["ty"] not in ("None", "Stop", "Junk") for x in last.get("res", [])),
+                          "run": 1, "seq": 1000 * k1 + k2, "t": 0})
+    return cases
+
+
+def two_handler_restart_cases(prog, workdir, finished_first=True, horizon_ms=60000, idle_timeout=1000.0):
+    """Two runs in one server: the process stops right after the tick that ends ONE of them was persisted (its status
+    write never happened) while the OTHER is in the middle of its run.  The restarted server must finalise the first
+    and resume the second.  Returns one case record per handler (same shape as crash_cases)."""
+    tag = "ff" if finished_first else "uf"
+    fin, unf = ("h1", "h2") if finished_first else ("h2", "h1")
+    uids = {"h1": "s0", "h2": "t0"}
+
+    def drive_finished(s):
+        """release only the gates of the run that is to finish, until none is left"""
+        for _ in range(40):
+            if s.crashed:
+                return
+            g = [k for k in s.rig.open_gates() if str(k[1]).startswith(uids[fin])]
+            if not g:
+                return
+            s.release(g[0])
+
+    # reference: both runs uninterrupted
+    db = os.path.join(str(workdir), "two_ref_%s.db" % tag)
+    s = ServerSystem(prog, db_path=db, idle_timeout=idle_timeout)
+    try:
+        s.launch()
+        s.start_handler("h1", uids["h1"])
+        s.start_handler("h2", uids["h2"])
+        drive_finished(s)
+        n_fin = s.nticks                     # the tick that ended `fin` is the last one persisted so far
+        s.run_to_end(horizon_ms)
+        ref = {h: _final(s, h) for h in ("h1", "h2")}
+    finally:
+        s.close()
+    db = os.path.join(str(workdir), "two_crash_%s.db" % tag)
+    s = ServerSystem(prog, db_path=db, idle_timeout=idle_timeout, crash_after_tick=n_fin)
+    try:
+        s.launch()
+        s.start_handler("h1", uids["h1"])
+        s.start_handler("h2", uids["h2"])
+        drive_finished(s)
+        hs = dict(s.handlers)
+        crashed = s.crashed
+        last = ([r["tick"] for r in s.trace if r["e"] == "tick"] or [{"k": "none"}])[-1]
+    finally:
+        s.close()
+    if not crashed:
+        return []
+    s2 = ServerSystem(prog, db_path=db, idle_timeout=idle_timeout, run_no_base=1)
+    try:
+        s2.handlers = hs
+        s2.launch()
+        s2.run_to_end(horizon_ms)
+        for h in ("h1", "h2"):
+            row = s2.handler_row(h)
+            if row["status"] == "running" and row["idle"]:
+                s2.send(h, "D", "wake", 0)
+                s2.run_to_end(horizon_ms)
+        res = {h: _final(s2, h) for h in ("h1", "h2")}
+        started = {r["uid"][:2] for r in s2.trace if r["e"] == "step_start"}
+    finally:
+        s2.close()
+    ends = last["k"] == "result" and any(x["r"] == "ret" and x["ty"] == "Stop" for x in last.get("res", []))
+    out = []
+    for h in ("h1", "h2"):
+        res[h]["idle_marked_at_restart"] = False
+        out.append({"e": "case", "k": n_fin, "ref": ref[h], "res": res[h], "reran": uids[h] in started,
+                    "last_tick": last["k"] if h == fin else "other_run", "prefix_ends_run": bool(ends) if h == fin else False,
+                    "pending_retry": False, "buffered_retry": False, "mailbox": 0, "last_has_output": False,
+                    "handler": h, "role": "finished" if h == fin else "unfinished", "run": 1, "seq": n_fin, "t": 0})
+    return out
